@@ -9,6 +9,8 @@
   The segment lookup (`ContinuousOutput`, `Solution::sol`) is modelled in `Model/Cont.lean`.
 -/
 import IvpModel.Proofs.DenseEqs853
+import IvpModel.Proofs.ContLemmas
+import IvpModel.Proofs.SolOutDense
 
 /-- C06 summary for DOPRI5 (the statement the other methods' lemmas share): with the dense block built from the
     step's own data, the interpolant is the old state at θ = 0 and the accepted state at θ = 1. -/
@@ -23,3 +25,205 @@ theorem C06_dopri5_endpoints {K : Type} [Field K] [LinearOrder K] [IsStrictOrder
   refine ⟨?_, (dopri5_interp_right y1 y k1 k2 c4 xold h hh).1⟩
   rw [dopri5_interp_left]
   exact (dopri5_interp_right y1 y k1 k2 c4 xold h hh).2
+
+/-! ### segment lookup: `ContinuousOutput` and `Solution::sol` / `sol_many` / `sol_span`
+
+  The comparisons and literals are the regenerated `Gen.Cont.*`; `ContM` is tied to the code by X-cont.  A run's segments
+  form a `Chain` (each starts where the previous one ended; steps have the sign of the direction) — that is what the
+  callback protocol (C19) delivers to the handler, whose collection rule is `SolOutM.denseCollect`. -/
+namespace ContM
+open Gen.Cont
+noncomputable section
+variable {K : Type} [Field K] [LinearOrder K] [IsStrictOrderedRing K] [SqrtPow K]
+
+/-- dense output disabled, or nothing collected: NotEnabled, never a value -/
+theorem c06_not_enabled (t : K) (ts : List K) :
+    sol (none : Option (List (Seg K))) t = .notEnabled ∧ sol (some ([] : List (Seg K))) t = .notEnabled ∧
+    solMany (none : Option (List (Seg K))) ts = .notEnabled ∧ solMany (some ([] : List (Seg K))) ts = .notEnabled ∧
+    solSpan (none : Option (List (Seg K))) = none := ⟨rfl, rfl, rfl, rfl, rfl⟩
+
+/-- no gaps: on the segments of a run, `sol_span` is (start, end); `sol t` succeeds for every `t` of the closed span and
+    is evaluated by a segment whose closed interval (± tol) contains `t`; outside the span it is OutOfRange.
+    Both directions, any number of steps, any step sizes. -/
+theorem c06_cover (fwd : Bool) (x : K) (s : Seg K) (r : List (Seg K)) (hc : Chain fwd x (s :: r)) (t : K) :
+    let e := endOf x (s :: r)
+    solSpan (some (s :: r)) = some (x, e) ∧ x ≠ e ∧
+    (min x e ≤ t → t ≤ max x e →
+      ∃ s' ∈ s :: r, sol (some (s :: r)) t = .ok s'.id ∧
+        min s'.xold (s'.xold + s'.h) - tol ≤ t ∧ t ≤ max s'.xold (s'.xold + s'.h) + tol) ∧
+    ((t < min x e ∨ max x e < t) → sol (some (s :: r)) t = .outOfRange) := by
+  intro e
+  have hspan := tSpan_chain fwd x s r hc
+  have hstrict := endOf_strict fwd x s r hc
+  refine ⟨hspan, ?_, ?_, ?_⟩
+  · cases fwd <;> simp only [if_true, if_false, Bool.false_eq_true] at hstrict
+    · exact ne_of_gt hstrict
+    · exact ne_of_lt hstrict
+  · intro h1 h2
+    have hin : if fwd then x ≤ t ∧ t ≤ endOf x (s :: r) else endOf x (s :: r) ≤ t ∧ t ≤ x := by
+      cases fwd <;> simp only [if_true, if_false, Bool.false_eq_true] at hstrict ⊢
+      · rw [min_eq_right hstrict.le] at h1; rw [max_eq_left hstrict.le] at h2; exact ⟨h1, h2⟩
+      · rw [min_eq_left hstrict.le] at h1; rw [max_eq_right hstrict.le] at h2; exact ⟨h1, h2⟩
+    obtain ⟨s0, hm0, hl0, hr0⟩ := chain_cover fwd x (s :: r) hc (by simp) t hin
+    have hex : ∃ a ∈ s :: r, hit t a = true := ⟨s0, hm0, hit_of_mem hl0 hr0⟩
+    obtain ⟨s', hf⟩ := Option.isSome_iff_exists.mp (List.find?_isSome.mpr hex)
+    have hm' : s' ∈ s :: r := List.mem_of_find?_eq_some hf
+    have hh' : hit t s' = true := List.find?_some hf
+    refine ⟨s', hm', ?_, (hit_iff t s').mp hh'⟩
+    unfold sol
+    dsimp only
+    rw [hspan]
+    have hno : ¬ outside t (spanLo x (endOf x (s :: r))) (spanHi x (endOf x (s :: r))) := by
+      unfold outside spanLo spanHi
+      simp only [num_fmin, num_fmax, gt_iff_lt, not_or, not_lt]
+      exact ⟨h1, h2⟩
+    simp only [hno, if_false]
+    unfold findSeg
+    rw [hf]
+  · intro hout
+    unfold sol
+    dsimp only
+    rw [hspan]
+    have : outside t (spanLo x (endOf x (s :: r))) (spanHi x (endOf x (s :: r))) := by
+      unfold outside spanLo spanHi
+      simpa only [num_fmin, num_fmax, gt_iff_lt] using hout
+    simp only [this, if_true]
+
+/-- the evaluating segment is the first one (in step order) that contains `t` within the lookup tolerance -/
+theorem c06_first_hit (segs : List (Seg K)) (t : K) (s : Seg K) (h : findSeg segs t = some s) :
+    hit t s = true ∧ ∃ before after, segs = before ++ s :: after ∧ ∀ a ∈ before, hit t a = false := by
+  unfold findSeg at h
+  obtain ⟨hh, before, after, hsplit, hb⟩ := List.find?_eq_some_iff_append.mp h
+  exact ⟨hh, before, after, hsplit, fun a ha => by simpa using hb a ha⟩
+
+/-- `sol_many` on the segments of a run never reaches its `unwrap()` on `None`: it is OutOfRange if some point is
+    outside the span and otherwise returns one value per point -/
+theorem c06_many_no_panic (fwd : Bool) (x : K) (s : Seg K) (r : List (Seg K)) (hc : Chain fwd x (s :: r)) (ts : List K) :
+    solMany (some (s :: r)) ts ≠ .panic ∧
+    ((∀ t ∈ ts, min x (endOf x (s :: r)) ≤ t ∧ t ≤ max x (endOf x (s :: r))) →
+      ∃ ids, solMany (some (s :: r)) ts = .ok ids ∧ ids.length = ts.length) := by
+  have hspan := tSpan_chain fwd x s r hc
+  have key : (∀ t ∈ ts, ¬ outside t (spanLo x (endOf x (s :: r))) (spanHi x (endOf x (s :: r)))) →
+      ∃ ids, solMany (some (s :: r)) ts = .ok ids ∧ ids.length = ts.length := by
+    intro hall
+    have hany : ts.any (fun t => decide (outside t (spanLo x (endOf x (s :: r))) (spanHi x (endOf x (s :: r))))) = false := by
+      rw [List.any_eq_false]; intro t ht; simpa using hall t ht
+    have hsome : ∀ t ∈ ts, ∃ c, (fun t => (findSeg (s :: r) t).map (·.id)) t = some c := by
+      intro t ht
+      have hno := hall t ht
+      unfold outside spanLo spanHi at hno
+      simp only [num_fmin, num_fmax, gt_iff_lt, not_or, not_lt] at hno
+      obtain ⟨_, _, hcov, _⟩ := c06_cover fwd x s r hc t
+      obtain ⟨s', _, hs', _⟩ := hcov hno.1 hno.2
+      unfold sol at hs'
+      dsimp only at hs'
+      rw [hspan] at hs'
+      have hno' : ¬ outside t (spanLo x (endOf x (s :: r))) (spanHi x (endOf x (s :: r))) := hall t ht
+      simp only [hno', if_false] at hs'
+      cases hf : findSeg (s :: r) t with
+      | none => rw [hf] at hs'; exact absurd hs' (by simp)
+      | some s'' => exact ⟨s''.id, by simp [hf]⟩
+    obtain ⟨ids, hids, hlen⟩ := mapM_some _ ts hsome
+    refine ⟨ids, ?_, hlen⟩
+    unfold solMany; dsimp only; rw [hspan]; simp only [hany]; rw [hids]; rfl
+  constructor
+  · unfold solMany
+    dsimp only
+    rw [hspan]
+    by_cases hany : ts.any (fun t => decide (outside t (spanLo x (endOf x (s :: r))) (spanHi x (endOf x (s :: r))))) = true
+    · dsimp only; rw [if_pos hany]; intro h; cases h
+    · have hall : ∀ t ∈ ts, ¬ outside t (spanLo x (endOf x (s :: r))) (spanHi x (endOf x (s :: r))) := by
+        intro t ht ho
+        apply hany
+        rw [List.any_eq_true]; exact ⟨t, ht, by simpa using ho⟩
+      obtain ⟨ids, hids, _⟩ := key hall
+      unfold solMany at hids
+      dsimp only at hids
+      rw [hspan] at hids
+      rw [hids]; simp
+  · intro hall
+    apply key
+    intro t ht
+    unfold outside spanLo spanHi
+    simp only [num_fmin, num_fmax, gt_iff_lt, not_or, not_lt]
+    exact hall t ht
+
+/-- `from_segments` drops the handler's zero-length steps and keeps a gap-free chain with the same ends -/
+theorem c06_from_segments (fwd : Bool) (x : K) (raw : List (Seg K)) (hw : WeakChain fwd x raw) :
+    Chain fwd x (fromSegments raw) ∧ endOf x (fromSegments raw) = endOf x raw := fromSegments_chain fwd x raw hw
+
+/-- the zero-interval / empty-state shortcut: one tiny forward segment at `x0`; `sol x0` succeeds -/
+theorem c06_constant (x0 : K) :
+    Chain true x0 (constant x0) ∧ sol (some (constant x0)) x0 = .ok 0 := by
+  have hpos : (0 : K) < constH := by unfold constH; rw [num_lit]; positivity
+  have hc : Chain true x0 (constant x0) := ⟨rfl, by simpa [stepPos] using hpos, trivial⟩
+  refine ⟨hc, ?_⟩
+  obtain ⟨_, _, hcov, _⟩ := c06_cover true x0 ⟨0, x0, constH⟩ [] hc x0
+  have he : endOf x0 [(⟨0, x0, constH⟩ : Seg K)] = x0 + constH := rfl
+  obtain ⟨s', hm, hs, _⟩ := hcov (by rw [he]; exact min_le_left _ _) (by rw [he]; exact le_max_left _ _)
+  simp only [List.mem_singleton] at hm
+  rw [hm] at hs
+  exact hs
+
+/-- non-vacuity: three forward steps from 0 form a chain; a backward pair too -/
+example : Chain true (0 : ℚ) [⟨0, 0, 1⟩, ⟨1, 1, 2⟩, ⟨2, 3, 1/2⟩] ∧ Chain false (5 : ℚ) [⟨0, 5, -1⟩, ⟨1, 4, -3⟩] := by
+  refine ⟨⟨rfl, by simp [stepPos], by norm_num, by simp [stepPos], by norm_num, by simp [stepPos], trivial⟩,
+          ⟨rfl, by simp [stepPos], by norm_num, by simp [stepPos], trivial⟩⟩
+
+end
+end ContM
+
+/-! ### the handler's collection rule (`DefaultSolOut::solout`, "Dense Output Collection") -/
+namespace SolOutM
+noncomputable section
+variable {K : Type} [Field K] [LinearOrder K] [IsStrictOrderedRing K] [SqrtPow K]
+
+/-- one callback appends the step's `(xold, h)` to the collected segments exactly when collection is on, the callback
+    reports a step (`x ≠ xold`, any length), an interpolant was passed and its `h ≠ 0`; nothing else in the callback
+    (events, terminal early return, sampling, first-step enforcement) touches the list -/
+theorem c06_collect (L : Lits K) (hz : L.zero = 0) (gEv : K → Array K → Array K) (s : St K) (xold x : K) (y : Array K)
+    (ip : Option (Interp K)) (s' : St K) (f : Flag) (h : step L gEv s xold x y ip = some (s', f)) :
+    s'.denseSegs =
+      match ip with
+      | some i => if s.collectDense = true ∧ x ≠ xold ∧ i.h ≠ 0 then s.denseSegs.push (i.xold, i.h) else s.denseSegs
+      | none => s.denseSegs := by
+  have hd : (denseCollect L s xold x ip).denseSegs =
+      match ip with
+      | some i => if s.collectDense = true ∧ x ≠ xold ∧ i.h ≠ 0 then s.denseSegs.push (i.xold, i.h) else s.denseSegs
+      | none => s.denseSegs := by
+    unfold denseCollect
+    cases ip with
+    | none => rfl
+    | some i =>
+      have e1 : (Num.eqb x xold = false) ↔ x ≠ xold := by
+        constructor
+        · intro hb he; rw [← num_eqb] at he; rw [he] at hb; exact absurd hb (by decide)
+        · intro hne; cases hb : Num.eqb x xold with
+          | false => rfl
+          | true => exact absurd ((num_eqb x xold).mp hb) hne
+      have e2 : (Num.eqb i.h L.zero = false) ↔ i.h ≠ 0 := by
+        rw [hz]
+        constructor
+        · intro hb he; rw [← num_eqb] at he; rw [he] at hb; exact absurd hb (by decide)
+        · intro hne; cases hb : Num.eqb i.h (0 : K) with
+          | false => rfl
+          | true => exact absurd ((num_eqb i.h 0).mp hb) hne
+      simp only [e1, e2]
+      split_ifs <;> rfl
+  rw [← hd]
+  unfold step at h
+  split at h
+  · cases h
+  · rename_i s1 he
+    injection h with h; injection h with h1 _
+    rw [← h1]; exact eventPhase_denseSegs L gEv _ xold x y ip _ _ he
+  · rename_i s1 he
+    split at h
+    · rename_i s2 ho
+      injection h with h; injection h with h1 _
+      rw [← h1, outputPhase_denseSegs _ _ _ _ _ _ ho]
+      exact eventPhase_denseSegs L gEv _ xold x y ip s1 false he
+    · cases h
+
+end
+end SolOutM
